@@ -21,6 +21,7 @@ import (
 	"github.com/formancehq/ledger/internal/replication"
 	"github.com/formancehq/ledger/internal/replication/drivers"
 	"github.com/formancehq/ledger/internal/storage/common"
+	systemstore "github.com/formancehq/ledger/internal/storage/system"
 )
 
 type WorkerSpec struct {
@@ -106,6 +107,16 @@ func (s *simReplStorage) quiet(ctx context.Context, fn func(sess *Session) error
 	_, err := s.inc().bunDB.ExecContext(context.WithoutCancel(ctx), fmt.Sprintf("SIMCALL %d", id))
 	w.takeCall(id)
 	return postgres.ResolveError(err)
+}
+
+// realSys: in half of the replication runs the data part of every storage call is the REAL
+// internal/storage/system DefaultStore method, its SQL interpreted by sqlmini (sqlmini_system.go); yields,
+// fencing of dead incarnations and the oracle's bookkeeping stay in this wrapper.
+func (s *simReplStorage) realSys(ctx context.Context) (*systemstore.DefaultStore, context.Context, bool) {
+	if !s.ww.r.sc.Knobs.RealSysSQL {
+		return nil, ctx, false
+	}
+	return systemstore.New(s.inc().bunDB), sysSQL(ctx), true
 }
 
 func pipelineKey(id string) rowKey { return rowKey{"pipeline", "", id} }
@@ -200,6 +211,9 @@ func (s *simReplStorage) StorePipelineState(ctx context.Context, id string, last
 	if s.fenced() {
 		return errSessionDead
 	}
+	if st, rctx, ok := s.realSys(ctx); ok {
+		return st.StorePipelineState(rctx, id, lastLogID)
+	}
 	return s.quiet(ctx, func(sess *Session) error {
 		k := pipelineKey(id)
 		row, _ := sess.get(k).(*ledger.Pipeline)
@@ -217,6 +231,26 @@ func (s *simReplStorage) StorePipelineState(ctx context.Context, id string, last
 }
 
 func (s *simReplStorage) listPipelines(ctx context.Context, enabledOnly bool) ([]ledger.Pipeline, error) {
+	if st, rctx, ok := s.realSys(ctx); ok {
+		if s.fenced() {
+			return nil, errSessionDead
+		}
+		var ps []ledger.Pipeline
+		if enabledOnly {
+			var err error
+			if ps, err = st.ListEnabledPipelines(rctx); err != nil {
+				return nil, err
+			}
+		} else {
+			cur, err := st.ListPipelines(rctx)
+			if err != nil {
+				return nil, err
+			}
+			ps = cur.Data
+		}
+		sort.Slice(ps, func(i, j int) bool { return ps[i].ID < ps[j].ID })
+		return ps, nil
+	}
 	var out []ledger.Pipeline
 	err := s.quiet(ctx, func(sess *Session) error {
 		out = nil
@@ -246,6 +280,12 @@ func (s *simReplStorage) ListPipelines(ctx context.Context) (*paginate.Cursor[le
 }
 
 func (s *simReplStorage) GetPipeline(ctx context.Context, id string) (*ledger.Pipeline, error) {
+	if st, rctx, ok := s.realSys(ctx); ok {
+		if s.fenced() {
+			return nil, errSessionDead
+		}
+		return st.GetPipeline(rctx, id)
+	}
 	var out *ledger.Pipeline
 	err := s.quiet(ctx, func(sess *Session) error {
 		row, _ := sess.get(pipelineKey(id)).(*ledger.Pipeline)
@@ -259,6 +299,12 @@ func (s *simReplStorage) GetPipeline(ctx context.Context, id string) (*ledger.Pi
 }
 
 func (s *simReplStorage) CreatePipeline(ctx context.Context, pipeline ledger.Pipeline) error {
+	if st, rctx, ok := s.realSys(ctx); ok {
+		if s.fenced() {
+			return errSessionDead
+		}
+		return st.CreatePipeline(rctx, pipeline)
+	}
 	return s.quiet(ctx, func(sess *Session) error {
 		for _, k := range sess.scan("pipeline", "") {
 			p := sess.get(k).(*ledger.Pipeline)
@@ -272,6 +318,12 @@ func (s *simReplStorage) CreatePipeline(ctx context.Context, pipeline ledger.Pip
 }
 
 func (s *simReplStorage) DeletePipeline(ctx context.Context, id string) error {
+	if st, rctx, ok := s.realSys(ctx); ok {
+		if s.fenced() {
+			return errSessionDead
+		}
+		return st.DeletePipeline(rctx, id)
+	}
 	return s.quiet(ctx, func(sess *Session) error {
 		if sess.get(pipelineKey(id)) == nil {
 			return postgres.ErrNotFound
@@ -282,6 +334,19 @@ func (s *simReplStorage) DeletePipeline(ctx context.Context, id string) error {
 }
 
 func (s *simReplStorage) UpdatePipeline(ctx context.Context, id string, o map[string]any) (*ledger.Pipeline, error) {
+	if st, rctx, ok := s.realSys(ctx); ok {
+		if s.fenced() {
+			return nil, errSessionDead
+		}
+		if v, has := o["last_log_id"]; has && v == nil {
+			// the exact moment of a reset (stamped before the statement that performs it, as in the model)
+			seq := s.ww.r.w.Event()
+			s.ww.mu.Lock()
+			s.ww.resets = append(s.ww.resets, resetRec{Seq: seq, Pipeline: id})
+			s.ww.mu.Unlock()
+		}
+		return st.UpdatePipeline(rctx, id, o)
+	}
 	var out *ledger.Pipeline
 	err := s.quiet(ctx, func(sess *Session) error {
 		k := pipelineKey(id)
@@ -318,6 +383,12 @@ func (s *simReplStorage) UpdatePipeline(ctx context.Context, id string, o map[st
 }
 
 func (s *simReplStorage) ListExporters(ctx context.Context) (*paginate.Cursor[ledger.Exporter], error) {
+	if st, rctx, ok := s.realSys(ctx); ok {
+		if s.fenced() {
+			return nil, errSessionDead
+		}
+		return st.ListExporters(rctx)
+	}
 	var out []ledger.Exporter
 	err := s.quiet(ctx, func(sess *Session) error {
 		out = nil
@@ -330,6 +401,12 @@ func (s *simReplStorage) ListExporters(ctx context.Context) (*paginate.Cursor[le
 }
 
 func (s *simReplStorage) CreateExporter(ctx context.Context, exporter ledger.Exporter) error {
+	if st, rctx, ok := s.realSys(ctx); ok {
+		if s.fenced() {
+			return errSessionDead
+		}
+		return st.CreateExporter(rctx, exporter)
+	}
 	return s.quiet(ctx, func(sess *Session) error {
 		cp := exporter
 		sess.put(exporterKey(exporter.ID), &cp)
@@ -338,6 +415,12 @@ func (s *simReplStorage) CreateExporter(ctx context.Context, exporter ledger.Exp
 }
 
 func (s *simReplStorage) DeleteExporter(ctx context.Context, id string) error {
+	if st, rctx, ok := s.realSys(ctx); ok {
+		if s.fenced() {
+			return errSessionDead
+		}
+		return st.DeleteExporter(rctx, id)
+	}
 	return s.quiet(ctx, func(sess *Session) error {
 		if sess.get(exporterKey(id)) == nil {
 			return postgres.ErrNotFound
@@ -348,6 +431,12 @@ func (s *simReplStorage) DeleteExporter(ctx context.Context, id string) error {
 }
 
 func (s *simReplStorage) GetExporter(ctx context.Context, id string) (*ledger.Exporter, error) {
+	if st, rctx, ok := s.realSys(ctx); ok {
+		if s.fenced() {
+			return nil, errSessionDead
+		}
+		return st.GetExporter(rctx, id)
+	}
 	var out *ledger.Exporter
 	err := s.quiet(ctx, func(sess *Session) error {
 		row, _ := sess.get(exporterKey(id)).(*ledger.Exporter)
@@ -362,6 +451,12 @@ func (s *simReplStorage) GetExporter(ctx context.Context, id string) (*ledger.Ex
 }
 
 func (s *simReplStorage) UpdateExporter(ctx context.Context, exporter ledger.Exporter) error {
+	if st, rctx, ok := s.realSys(ctx); ok {
+		if s.fenced() {
+			return errSessionDead
+		}
+		return st.UpdateExporter(rctx, exporter)
+	}
 	return s.quiet(ctx, func(sess *Session) error {
 		cp := exporter
 		sess.put(exporterKey(exporter.ID), &cp)
